@@ -268,6 +268,10 @@ def _biv(R, fam):
         y = containers_1d(np.array([0.1, 0.5, 0.9]))[cname]
         v = containers_1d(np.array([0.3, 0.6, 0.8]))[cname]
         R.twice(f'biv:{fam}.percent_point({cname})', c.percent_point, (y, v))
+        # probabilities next to the ends of [0, 1] (inside the solver's bracket guard band): the caller's arrays stay as they are
+        y2 = containers_1d(np.array([1e-9, 0.5, 1 - 1e-9, 3e-8]))[cname]
+        v2 = containers_1d(np.array([0.3, 1 - 1e-9, 0.8, 1e-9]))[cname]
+        R.twice(f'biv:{fam}.percent_point(near-end probabilities, {cname})', c.percent_point, (y2, v2), compare=False)
         R.twice(f'biv:{fam}.generator({cname})', c.generator, (containers_1d(np.array([0.2, 0.7, 1.0]))[cname],))
         R.twice(f'biv:{fam}.sample', c.sample, (4,), reseed=lambda: c.set_random_state(3))
         if cname == 'ndarray':
@@ -400,6 +404,19 @@ def _misc(R):
     import copulas.datasets as D
     for fn in ('sample_bivariate_age_income', 'sample_trivariate_xyz', 'sample_univariates'):
         R.twice(f'misc:datasets.{fn}', getattr(D, fn), (20, 7))
+    # the generic multivariate entry point reads the dict it is given (twice: the second call sees the same dict)
+    from copulas.multivariate import GaussianMultivariate as _GM, Multivariate as _MV, VineCopula as _VC
+    dfm, _ = tables.gaussian_copula_table((3, 'mixed', 'rotated', (), 30, 'str'))
+    import warnings as _w
+    with _w.catch_warnings():
+        _w.simplefilter('ignore')
+        gmd = _GM(distribution=U.GaussianUnivariate)
+        gmd.fit(dfm.copy())
+        vcd = _VC('regular')
+        vcd.fit(dfm.copy())
+    for label, dct in (('GaussianMultivariate dict', gmd.to_dict()), ('VineCopula dict', vcd.to_dict())):
+        R.twice(f'misc:Multivariate.from_dict({label})', _MV.from_dict, (dct,), compare=False)
+    R.twice('misc:Univariate.from_dict(dict)', U.Univariate.from_dict, (gmd.univariates[0].to_dict(),), compare=False)
     # a RandomState object handed over as seed is the caller's: it is read, never advanced (same answer the second time)
     for fn in ('sample_bivariate_age_income', 'sample_trivariate_xyz', 'sample_univariate_bimodal', 'sample_univariates'):
         rs = np.random.RandomState(11)
